@@ -853,7 +853,7 @@ unsafe fn byte_through(from: i32, to: i32) -> bool {
         return false;
     }
     let mut pf = libc::pollfd { fd: to, events: libc::POLLIN, revents: 0 };
-    libc::poll(&mut pf, 1, 200);
+    libc::poll(&mut pf, 1, 5000);
     let mut b = [0u8; 1];
     libc::recv(to, b.as_mut_ptr() as *mut _, 1, libc::MSG_DONTWAIT) == 1 && b[0] == b'Z'
 }
@@ -902,9 +902,12 @@ impl Slot {
                     if v != 0 {
                         return String::new();
                     }
-                    // the descriptor was the only write end of a pipe: closed <=> the read end reports hang-up
+                    // the descriptor was the only write end of a pipe: closed <=> the read end reports hang-up.
+                    // The kernel releases the file behind a closed descriptor asynchronously (deferred fput, from a
+                    // worker or the SQPOLL thread), possibly well after the completion is visible on a loaded
+                    // machine: when the close reported success, wait generously before concluding otherwise.
                     let mut pf = libc::pollfd { fd: self.b, events: libc::POLLIN, revents: 0 };
-                    libc::poll(&mut pf, 1, if res == 0 { 200 } else { 0 });
+                    libc::poll(&mut pf, 1, if res == 0 { 10_000 } else { 0 });
                     let closed = pf.revents & libc::POLLHUP != 0;
                     if !closed {
                         self.close_after.push(self.a);
